@@ -575,83 +575,231 @@ theorem R.isTrue_iff (r : R) : r.isTrue = true ↔ r = .ok (.bool true) := by
   unfold R.isTrue
   split <;> simp_all
 
-/-- when no comparison fails, membership is `List.any` of "equal to the element" -/
+/-- "this comparison result lets the membership loop move on": a value that is neither `true`
+nor host-dependent -/
+def R.inSkip : R → Bool
+  | .ok (.bool true) => false
+  | .ok (.host _ _) => false
+  | .ok _ => true
+  | _ => false
+
+theorem R.inSkip_iff (r : R) :
+    r.inSkip = true ↔ ∃ v, r = .ok v ∧ v ≠ .bool true ∧ isHostV v = false := by
+  unfold R.inSkip
+  split
+  · simp
+  · simp [isHostV]
+  · rename_i v h1 h2
+    constructor
+    · intro _
+      refine ⟨v, rfl, fun h => h1 h, ?_⟩
+      cases v <;> simp [isHostV]
+      exact h2 _ _ rfl
+    · intro _; rfl
+  · rename_i h1 h2 h3
+    constructor
+    · intro h; cases h
+    · rintro ⟨v, rfl, hv1, hv2⟩
+      cases v <;> first | exact absurd rfl (h3 _) | (simp [isHostV] at hv2)
+
+/-- the loop's answer at the first comparison that does not let it move on -/
+def inOutcome : R → R
+  | .ok (.host t a) => .ok (.host "in" [.host t a])
+  | r => r
+
+/-! one step of the loop -/
+
+theorem C06_in_step_true (m : Mgr) (x e : V) (es : List V)
+    (h : equalOp m x e = .ok (.bool true)) : inLoop m x (e :: es) = .ok (.bool true) := by
+  unfold inLoop; rw [h]
+
+/-- a host-dependent comparison result makes the whole membership test host-dependent -/
+theorem C06_in_step_host (m : Mgr) (x e : V) (es : List V) (t : String) (a : List V)
+    (h : equalOp m x e = .ok (.host t a)) :
+    inLoop m x (e :: es) = .ok (.host "in" [.host t a]) := by
+  unfold inLoop; rw [h]
+
+/-- an error in a comparison is the result of the membership test -/
+theorem C06_in_list_error (m : Mgr) (x e : V) (es : List V) (c : String)
+    (h : equalOp m x e = .err c) : inLoop m x (e :: es) = .err c := by
+  unfold inLoop; rw [h]
+
+theorem C06_in_step_skip (m : Mgr) (x e : V) (es : List V)
+    (h : (equalOp m x e).inSkip = true) : inLoop m x (e :: es) = inLoop m x es := by
+  obtain ⟨v, hv, h1, h2⟩ := (R.inSkip_iff _).1 h
+  rw [inLoop, hv]
+  split
+  · rename_i heq; injection heq with heq; exact absurd heq h1
+  · rename_i heq; injection heq with heq; subst heq; simp [isHostV] at h2
+  · rfl
+  · rename_i heq; cases heq
+  · rename_i heq; cases heq
+
+theorem C06_in_skip_prefix (m : Mgr) (x : V) (pre rest : List V)
+    (h : ∀ e ∈ pre, (equalOp m x e).inSkip = true) :
+    inLoop m x (pre ++ rest) = inLoop m x rest := by
+  induction pre with
+  | nil => rfl
+  | cons p pre ih =>
+    rw [List.cons_append, C06_in_step_skip m x p _ (h p (List.mem_cons_self ..))]
+    exact ih fun e he => h e (List.mem_cons_of_mem _ he)
+
+/-- complete, unconditional description of the loop: the answer is decided by the first element
+whose comparison is `true`, host-dependent, or an error; if there is none the answer is `false` -/
+theorem C06_in_first_decisive (m : Mgr) (x : V) (es : List V) :
+    inLoop m x es =
+      match es.find? (fun e => !(equalOp m x e).inSkip) with
+      | none => .ok (.bool false)
+      | some e => inOutcome (equalOp m x e) := by
+  induction es with
+  | nil => rfl
+  | cons e es ih =>
+    cases hs : (equalOp m x e).inSkip
+    · rw [List.find?_cons_of_pos (by simp [hs])]
+      show inLoop m x (e :: es) = inOutcome (equalOp m x e)
+      unfold inLoop
+      split
+      · rename_i heq; rw [heq]; rfl
+      · rename_i heq; rw [heq]; rfl
+      · rename_i v h1 h2 heq
+        have : (equalOp m x e).inSkip = true := by
+          rw [R.inSkip_iff]
+          refine ⟨v, heq, fun h => h1 h, ?_⟩
+          cases v <;> simp [isHostV]
+          exact h2 _ _ rfl
+        rw [hs] at this; cases this
+      · rename_i heq; rw [heq]; rfl
+      · rename_i heq; rw [heq]; rfl
+    · rw [List.find?_cons_of_neg (by simp [hs]), C06_in_step_skip m x e es hs]
+      exact ih
+
+/-- when every comparison yields a value that is not host-dependent, membership is `List.any`
+of "equal to the element" -/
 theorem C06_in_list (m : Mgr) (x : V) (es : List V)
-    (hok : ∀ e ∈ es, ∃ v, equalOp m x e = .ok v) :
+    (hok : ∀ e ∈ es, ∃ v, equalOp m x e = .ok v ∧ isHostV v = false) :
     inLoop m x es = .ok (.bool (es.any fun e => (equalOp m x e).isTrue)) := by
   induction es with
   | nil => rfl
   | cons e es ih =>
     have ih := ih fun e' he' => hok e' (List.mem_cons_of_mem _ he')
-    obtain ⟨v, hv⟩ := hok e (List.mem_cons_self ..)
-    unfold inLoop
-    rw [List.any_cons, hv]
-    split
-    · rename_i h; rw [h]; rfl
-    · rename_i v' hne h
-      injection h with h; subst h
-      have : (R.ok v).isTrue = false := by
-        cases hh : (R.ok v).isTrue
-        · rfl
-        · have := (R.isTrue_iff _).1 hh
-          injection this with this
-          exact absurd this hne
-      rw [this, ih]; rfl
-    · rename_i h; cases h
-    · rename_i h; cases h
+    obtain ⟨v, hv, hh⟩ := hok e (List.mem_cons_self ..)
+    rw [List.any_cons]
+    cases ht : (equalOp m x e).isTrue
+    · have hs : (equalOp m x e).inSkip = true := by
+        rw [R.inSkip_iff]
+        refine ⟨v, hv, ?_, hh⟩
+        intro hvt; subst hvt; rw [hv] at ht; cases ht
+      rw [C06_in_step_skip m x e es hs, ih]; rfl
+    · rw [C06_in_step_true m x e es ((R.isTrue_iff _).1 ht)]; rfl
 
 /-- exact characterisation without side conditions: membership holds iff some element compares
-equal and no earlier comparison failed -/
+equal and every earlier comparison gave a value that is neither an error nor host-dependent -/
 theorem C06_in_list_iff (m : Mgr) (x : V) (es : List V) :
     inLoop m x es = .ok (.bool true) ↔
       ∃ pre e post, es = pre ++ e :: post ∧ equalOp m x e = .ok (.bool true) ∧
-        ∀ e' ∈ pre, ∃ v, equalOp m x e' = .ok v := by
-  induction es with
-  | nil =>
-    constructor
-    · intro h; simp [inLoop] at h
-    · rintro ⟨pre, e, post, h, _⟩; simp at h
-  | cons e0 es ih =>
-    constructor
-    · intro h
-      unfold inLoop at h
-      split at h
-      · rename_i heq
-        exact ⟨[], e0, es, rfl, heq, by simp⟩
-      · rename_i v' hne heq
-        obtain ⟨pre, e, post, h1, h2, h3⟩ := ih.1 h
+        ∀ e' ∈ pre, ∃ v, equalOp m x e' = .ok v ∧ isHostV v = false := by
+  constructor
+  · intro h
+    induction es with
+    | nil => simp [inLoop] at h
+    | cons e0 es ih =>
+      cases hs : (equalOp m x e0).inSkip
+      · rw [C06_in_first_decisive, List.find?_cons_of_pos (by simp [hs])] at h
+        have h : inOutcome (equalOp m x e0) = .ok (.bool true) := h
+        refine ⟨[], e0, es, rfl, ?_, by simp⟩
+        unfold inOutcome at h
+        split at h
+        · injection h with h; cases h
+        · exact h
+      · rw [C06_in_step_skip m x e0 es hs] at h
+        obtain ⟨pre, e, post, h1, h2, h3⟩ := ih h
+        obtain ⟨v, hv, _, hh⟩ := (R.inSkip_iff _).1 hs
         refine ⟨e0 :: pre, e, post, by simp [h1], h2, ?_⟩
         intro e' he'
         rcases List.mem_cons.1 he' with rfl | he'
-        · exact ⟨_, heq⟩
+        · exact ⟨v, hv, hh⟩
         · exact h3 e' he'
-      · cases h
-      · cases h
-    · rintro ⟨pre, e, post, h1, h2, h3⟩
-      cases pre with
-      | nil =>
-        simp at h1
-        obtain ⟨rfl, rfl⟩ := h1
-        unfold inLoop
-        rw [h2]
-      | cons p pre =>
-        simp at h1
-        obtain ⟨rfl, rfl⟩ := h1
-        have hin : inLoop m x (pre ++ e :: post) = .ok (.bool true) :=
-          ih.2 ⟨pre, e, post, rfl, h2, fun e' he' => h3 e' (List.mem_cons_of_mem _ he')⟩
-        obtain ⟨v, hv⟩ := h3 e0 (List.mem_cons_self ..)
-        unfold inLoop
-        rw [hv]
-        split
-        · rfl
-        · exact hin
-        · rename_i h; cases h
-        · rename_i h; cases h
+  · rintro ⟨pre, e, post, rfl, h2, h3⟩
+    induction pre with
+    | nil => exact C06_in_step_true m x e post h2
+    | cons p pre ih =>
+      have ih := ih fun e' he' => h3 e' (List.mem_cons_of_mem _ he')
+      obtain ⟨v, hv, hh⟩ := h3 p (List.mem_cons_self ..)
+      rw [List.cons_append]
+      by_cases hvt : v = .bool true
+      · subst hvt; exact C06_in_step_true m x p _ hv
+      · rw [C06_in_step_skip m x p _ ((R.inSkip_iff _).2 ⟨v, hv, hvt, hh⟩)]; exact ih
 
-/-- an error in a comparison before any hit is the result of the membership test -/
-theorem C06_in_list_error (m : Mgr) (x e : V) (es : List V) (c : String)
-    (h : equalOp m x e = .err c) : inLoop m x (e :: es) = .err c := by
-  unfold inLoop; rw [h]
+/-- a host-dependent comparison result before any `true` (and before any error) makes the whole
+result host-dependent -/
+theorem C06_in_host_elem (m : Mgr) (x : V) (pre post : List V) (e : V) (t : String) (a : List V)
+    (hpre : ∀ e' ∈ pre, (equalOp m x e').inSkip = true)
+    (he : equalOp m x e = .ok (.host t a)) :
+    inLoop m x (pre ++ e :: post) = .ok (.host "in" [.host t a]) := by
+  rw [C06_in_skip_prefix m x pre _ hpre]; exact C06_in_step_host m x e post t a he
+
+/-- … and conversely a host-dependent membership result has exactly that origin -/
+theorem C06_in_host_iff (m : Mgr) (x : V) (es : List V) (tag : String) (args : List V) :
+    inLoop m x es = .ok (.host tag args) ↔
+      ∃ pre e post t a, es = pre ++ e :: post ∧ (∀ e' ∈ pre, (equalOp m x e').inSkip = true) ∧
+        equalOp m x e = .ok (.host t a) ∧ tag = "in" ∧ args = [.host t a] := by
+  constructor
+  · intro h
+    induction es with
+    | nil => simp [inLoop] at h
+    | cons e0 es ih =>
+      cases hs : (equalOp m x e0).inSkip
+      · rw [C06_in_first_decisive, List.find?_cons_of_pos (by simp [hs])] at h
+        have h : inOutcome (equalOp m x e0) = .ok (.host tag args) := h
+        unfold inOutcome at h
+        split at h
+        · rename_i t a heq
+          injection h with h; injection h with h1 h2
+          exact ⟨[], e0, es, t, a, rfl, by simp, heq, h1.symm, h2.symm⟩
+        · -- a bare host comparison result would have been rewritten by `inOutcome`
+          rename_i hne
+          exact absurd h (hne _ _)
+      · rw [C06_in_step_skip m x e0 es hs] at h
+        obtain ⟨pre, e, post, t, a, h1, h2, h3, h4, h5⟩ := ih h
+        refine ⟨e0 :: pre, e, post, t, a, by simp [h1], ?_, h3, h4, h5⟩
+        intro e' he'
+        rcases List.mem_cons.1 he' with rfl | he'
+        · exact hs
+        · exact h2 e' he'
+  · rintro ⟨pre, e, post, t, a, rfl, h2, h3, rfl, rfl⟩
+    exact C06_in_host_elem m x pre post e t a h2 h3
+
+/-- an error before any `true` / host-dependent comparison is the result -/
+theorem C06_in_error_elem (m : Mgr) (x : V) (pre post : List V) (e : V) (c : String)
+    (hpre : ∀ e' ∈ pre, (equalOp m x e').inSkip = true)
+    (he : equalOp m x e = .err c) :
+    inLoop m x (pre ++ e :: post) = .err c := by
+  rw [C06_in_skip_prefix m x pre _ hpre]; exact C06_in_list_error m x e post c he
+
+/-- the answer is `false` exactly when every comparison lets the loop move on -/
+theorem C06_in_false_iff (m : Mgr) (x : V) (es : List V) :
+    inLoop m x es = .ok (.bool false) ↔ ∀ e ∈ es, (equalOp m x e).inSkip = true := by
+  constructor
+  · intro h
+    induction es with
+    | nil => simp
+    | cons e0 es ih =>
+      cases hs : (equalOp m x e0).inSkip
+      · rw [C06_in_first_decisive, List.find?_cons_of_pos (by simp [hs])] at h
+        have h : inOutcome (equalOp m x e0) = .ok (.bool false) := h
+        unfold inOutcome at h
+        split at h
+        · injection h with h; cases h
+        · rw [h] at hs; simp [R.inSkip] at hs
+      · rw [C06_in_step_skip m x e0 es hs] at h
+        intro e he
+        rcases List.mem_cons.1 he with rfl | he
+        · exact hs
+        · exact ih h e he
+  · intro h
+    have := C06_in_skip_prefix m x es [] h
+    rw [List.append_nil] at this
+    rw [this]; rfl
 
 /-- the public operator: membership in an array runs the loop, for non-null operands -/
 theorem C06_in_array_core (m : Mgr) (x : V) (es : List V) (hx : x.typ ≠ .null) :
@@ -663,14 +811,20 @@ theorem C06_in_array (m : Mgr) (x : V) (es : List V) (hh : isHostV x = false) (h
     binop m .in_ (.array es) x = inLoop m x es := by
   rw [binop_of_not_host m _ rfl hh]; exact C06_in_array_core m x es hx
 
-/-- host-dependent *elements* of the container do not make `binop` host-dependent by themselves:
-the comparison with such an element converts it (`convert_host`) and `arith` then returns a
-host-dependent value, which is not `true`, so the loop moves on -/
+/-- comparing with a host-dependent *element* of the container: the element is converted
+(`convert_host`), `arith` returns a host-dependent value … -/
 theorem C06_equalOp_host_elem (m : Mgr) (x : V) (tag : String) (args : List V)
     (hx : x.typ ≠ .null) :
     equalOp m x (.host tag args) = .ok (.host "arith" [x, .host "convert" [.host tag args]]) := by
   have hb : (V.host tag args).typ = .object := rfl
   simp [equalOp, hx, hb, convert_host, R.bind, arith]
+
+/-- … so membership becomes host-dependent at that element (unless decided earlier) -/
+theorem C06_in_host_array_elem (m : Mgr) (x : V) (pre post : List V) (tag : String) (args : List V)
+    (hx : x.typ ≠ .null) (hpre : ∀ e' ∈ pre, (equalOp m x e').inSkip = true) :
+    inLoop m x (pre ++ .host tag args :: post) =
+      .ok (.host "in" [.host "arith" [x, .host "convert" [.host tag args]]]) :=
+  C06_in_host_elem m x pre post _ _ _ hpre (C06_equalOp_host_elem m x tag args hx)
 
 /-! ## non-vacuity -/
 
@@ -679,6 +833,10 @@ example : binop .safe .add (.int 2) (.str (strOfS "40")) = .err "CONV_NOT_SUPPOR
 example : binop .safe .add (.long 2) (.int 40) = .ok (.long 42) := by rfl
 example : binop .unsafe_ .div (.int 7) (.bool false) = .err "DIV_BY_ZERO" := by rfl
 example : binop .unsafe_ .in_ (.array [.int 1, .str (strOfS "2"), .null]) (.int 2) = .ok (.bool true) := by rfl
+/-- the differential-run witness: `In(["a", 1, null], 0L)` depends on the host's conversion of "a" -/
+example : binop .unsafe_ .in_ (.array [.str (strOfS "a"), .int 1, .null]) (.long 0) =
+    .ok (.host "in" [.host "arith" [.long 0, .host "strToLong" [.str (strOfS "a")]]]) := by rfl
+example : binop .unsafe_ .in_ (.array [.int 1, .null]) (.long 0) = .ok (.bool false) := by rfl
 example : binop .unsafe_ .getElement (.array [.int 1, .int 5]) (.long 1) = .ok (.int 5) := by rfl
 example : binop .unsafe_ .getElement (.array [.int 1, .int 5]) (.int 2) = .err "INDEX_OUT_OF_RANGE" := by rfl
 example : binop .unsafe_ .lsh (.int 1) (.int (-1)) = .err "NEGATIVE_SHIFT" := by rfl
